@@ -87,6 +87,9 @@ type Result struct {
 	SitesSwitched map[uint32]int
 	ClockEnd    int64
 	TaskPanics  []interface{}
+	Spawned     int      // goroutines the code under test started (Go)
+	SpawnCap    bool     // more than maxSpawn of them: run aborted
+	SpawnPanics []string // panics that escaped such a goroutine (a real process would have died)
 }
 
 // ---------------------------------------------------------------------------
@@ -133,6 +136,9 @@ type sim struct {
 	doneCh   chan int
 	curProbe [maxRegions]int // region -> number of tasks currently inside
 	decOverflow bool
+	spawned  int
+	spawnCap bool
+	n0       int // tasks the run started with
 }
 
 var s sim
@@ -604,7 +610,7 @@ func wgZero(key interface{}) bool { return wgGet(key).n <= 0 }
 
 // WGAdd replaces wg.Add(n); key is the *sync.WaitGroup.
 func WGAdd(key interface{}, add func(int), n int) {
-	if multi() {
+	if Active() { // also with a single task: it may start goroutines (Go) later
 		wgDelta(key, n)
 	}
 	add(n)
@@ -612,7 +618,7 @@ func WGAdd(key interface{}, add func(int), n int) {
 
 // WGDone replaces wg.Done().
 func WGDone(key interface{}, done func()) {
-	if multi() {
+	if Active() {
 		wgDelta(key, -1)
 	}
 	done()
@@ -621,7 +627,7 @@ func WGDone(key interface{}, done func()) {
 // WGWait replaces wg.Wait(): yields while the shadow counter is positive, then
 // performs the real Wait (returns at once, keeps the happens-before edge).
 func WGWait(key interface{}, wait func()) {
-	if multi() {
+	if Active() {
 		for !wgZero(key) {
 			s.yieldBlocked()
 		}
@@ -751,6 +757,7 @@ func CurTask() int { return s.cur }
 func (s *sim) reset(cfg Config, n int) {
 	*s = sim{}
 	s.cfg = cfg
+	s.n0 = n
 	s.rng = cfg.Seed
 	s.hash = 14695981039346656037
 	s.dec = decBuf[:0]
@@ -767,11 +774,86 @@ func (s *sim) reset(cfg Config, n int) {
 			s.firedKnob++
 		}
 	}
-	s.tasks = make([]*task, n)
+	s.tasks = make([]*task, n, n+maxSpawn) // Go() appends within the capacity: no growslice
 	for i := range s.tasks {
 		s.tasks[i] = &task{id: i, wake: make(chan struct{}, 1)}
 	}
-	s.doneCh = make(chan int, n+1)
+	s.doneCh = make(chan int, n+maxSpawn+1)
+	for i := range spawnPanics {
+		spawnPanics[i] = nil
+	}
+}
+
+// ---------------------------------------------------------------------------
+// goroutines started by the code under test
+
+// maxSpawn bounds the tasks one run may start with Go.
+const maxSpawn = 64
+
+var spawnPanics [maxSpawn]interface{}
+
+//go:norace
+func (s *sim) spawn() *task {
+	if len(s.tasks) >= cap(s.tasks) {
+		return nil
+	}
+	t := &task{id: len(s.tasks), wake: make(chan struct{}, 1)}
+	s.tasks = append(s.tasks, t)
+	s.spawned++
+	s.mix(0x60, s.steps, uint64(t.id))
+	return t
+}
+
+//go:norace
+func (s *sim) nTasks() int { return len(s.tasks) }
+
+//go:norace
+func setSpawnPanic(id, n0 int, r interface{}) {
+	if i := id - n0; i >= 0 && i < maxSpawn {
+		spawnPanics[i] = r
+	}
+}
+
+// Go replaces a go statement of the code under test: the new goroutine is a real one (so
+// the race detector sees the happens-before edge of its creation), scheduled like every
+// other simulated task. Outside a simulated run it is a plain go statement.
+func Go(f func()) {
+	if !Active() {
+		go f()
+		return
+	}
+	t := s.spawn()
+	if t == nil {
+		abortRun()
+	}
+	n0 := initialTasks()
+	doneCh := s.doneCh
+	go func() {
+		waitTurn(t)
+		func() {
+			defer func() {
+				if r := recover(); r != nil {
+					// in a real program an unrecovered panic of a goroutine kills the
+					// process; here it is recorded (Result.SpawnPanics) and the task ends
+					setSpawnPanic(t.id, n0, r)
+				}
+			}()
+			f()
+		}()
+		s.finish(t.id)
+		doneCh <- t.id
+	}()
+	s.step(0, kSync) // a scheduling point: the child may run first
+}
+
+//go:norace
+func initialTasks() int { return s.n0 }
+
+//go:norace
+func abortRun() {
+	s.spawnCap = true
+	s.aborted = true
+	panic(abortT{})
 }
 
 // result is called by the controller after every task has finished.
@@ -784,7 +866,12 @@ func (s *sim) result() Result {
 		FaultsFired: map[string]int{"gc": s.firedGC, "clock": s.firedClock, "knob": s.firedKnob},
 		MapPerms: s.mapPerms, MapIters: s.mapIters,
 		Overlap: map[string]int{}, LockSpins: s.lockSpins, SitesSwitched: map[uint32]int{},
-		ClockEnd: s.clock,
+		ClockEnd: s.clock, Spawned: s.spawned, SpawnCap: s.spawnCap,
+	}
+	for i := 0; i < s.spawned && i < maxSpawn; i++ {
+		if spawnPanics[i] != nil && !IsAbort(spawnPanics[i]) {
+			r.SpawnPanics = append(r.SpawnPanics, fmt.Sprint(spawnPanics[i]))
+		}
 	}
 	for i := 0; i < nRegions; i++ {
 		if s.overlap[i] != 0 {
@@ -892,6 +979,13 @@ func Run(cfg Config, bodies ...func()) Result {
 			}()
 			bodies[0]()
 		}()
+		if s.nTasks() > 1 {
+			// the body started goroutines: let them run to completion
+			s.finish(0)
+			for got := 0; got < s.nTasks()-1; got++ {
+				<-s.doneCh
+			}
+		}
 		setActive(false)
 		r := s.result()
 		r.TaskPanics = panics
@@ -919,7 +1013,7 @@ func Run(cfg Config, bodies ...func()) Result {
 	s.begin(first)
 	setActive(true)
 	kick(tasks[first])
-	for i := 0; i < n; i++ {
+	for got := 0; got < s.nTasks(); got++ {
 		<-doneCh
 	}
 	setActive(false)
